@@ -470,6 +470,20 @@ func TestP3UniForms(t *testing.T) {
 		try("uni" + strings.Repeat("A", w))
 		try("u" + strings.Repeat("1", w))
 	}
+	// long sequences: every group count 1..64, with and without a suffix,
+	// and with a flaw (surrogate, lower case, missing digit) in the last group
+	for n := 1; n <= 64; n++ {
+		seq := ""
+		for i := 0; i < n; i++ {
+			seq += fmt.Sprintf("%04X", 0x0041+i*0x101)
+		}
+		try("uni" + seq)
+		try("uni" + seq + ".alt")
+		try("A_uni" + seq + "_B")
+		try("uni" + seq[:len(seq)-4] + "D800")
+		try("uni" + seq[:len(seq)-1])
+		try("uni" + seq[:len(seq)-1] + "f")
+	}
 	try("uni")
 	try("u")
 	try("uni004G")
@@ -505,7 +519,9 @@ func genComponent() *rapid.Generator[string] {
 		rapid.Custom(func(t *rapid.T) string { return dingList[rapid.IntRange(0, len(dingList)-1).Draw(t, "d")].name }),
 		rapid.Custom(func(t *rapid.T) string { return glyphList[rapid.IntRange(0, len(glyphList)-1).Draw(t, "g")].name }),
 		rapid.Custom(func(t *rapid.T) string {
-			n := rapid.IntRange(1, 3).Draw(t, "groups")
+			// 1-3 groups mostly, sometimes up to 40 (no limit in the AGL
+			// specification; 7 groups make a 31-character name)
+			n := rapid.OneOf(rapid.IntRange(1, 3), rapid.IntRange(1, 3), rapid.IntRange(4, 12), rapid.IntRange(13, 40)).Draw(t, "groups")
 			s := "uni"
 			for i := 0; i < n; i++ {
 				s += fmt.Sprintf("%04X", rapid.OneOf(rapid.IntRange(0, 0xFFFF), rapid.SampledFrom([]int{0xD7FF, 0xD800, 0xDFFF, 0xE000})).Draw(t, "v"))
